@@ -188,8 +188,6 @@ def random_history(rng, mode, with_upd_predict, nmax, depth):
             if fitted:
                 if mode == "req":
                     fh = {"steps": list(sf[1]), "rel": True}
-                elif sf is not None and rng.random() < 0.5:
-                    fh = NOFH
                 else:
                     fh = {"steps": rng.choice(fhs), "rel": True}
             else:
